@@ -6,6 +6,7 @@ import (
 	"encoding/json"
 	"os"
 	"path/filepath"
+	"sync"
 
 	"github.com/ilius/libgostarcal/event/rules_lib"
 )
@@ -27,15 +28,16 @@ type hijriTableDump struct {
 }
 
 var hijriDump *hijriTableDump
+var hijriDumpOnce sync.Once
 
 func hijriTable() (loaded bool, startDate [3]int, startJd, endJd int, rows [][]int) {
-	if hijriDump == nil {
+	hijriDumpOnce.Do(func() {
 		hijriDump = &hijriTableDump{}
 		exe, _ := os.Executable()
 		if b, err := os.ReadFile(filepath.Join(filepath.Dir(exe), "hijri_table.json")); err == nil {
 			json.Unmarshal(b, hijriDump)
 		}
-	}
+	})
 	d := hijriDump
 	return d.Loaded, d.StartDate, d.StartJd, d.EndJd, d.Rows
 }
